@@ -10,8 +10,9 @@ theorem COk.repack {s s' : St} {c : Nat} {cl : Closer} (h : COk s c cl)
     (e1 : s'.isClosed = s.isClosed) (e2 : s'.graceful = s.graceful) (e3 : s'.mainIdx = s.mainIdx)
     (e4 : s'.gOwner = s.gOwner) (e5 : s'.closeDone = s.closeDone) (e6 : s'.bodyLog = s.bodyLog)
     (e7 : s'.interceptorCloses = s.interceptorCloses) (e8 : s'.iceStops = s.iceStops)
-    (e9 : s'.gracefulDone = s.gracefulDone) (e10 : s'.opsCloses = s.opsCloses) : COk s' c cl := by
-  obtain ⟨h1, h2, h3, h4, h5, h6, h7, h8, h9, h10, h11, h12, h13⟩ := h
+    (e9 : s'.gracefulDone = s.gracefulDone) (e10 : s'.opsCloses = s.opsCloses)
+    (e11 : s'.loops = s.loops) : COk s' c cl := by
+  obtain ⟨h1, h2, h3, h4, h5, h6, h7, h8, h9, h10, h11, h12, h13, h14⟩ := h
   constructor <;> simp_all
 
 theorem GInv.withClosers {s : St} (h : GInv s) (X : List Closer) : GInv { s with closers := X } :=
@@ -31,7 +32,7 @@ theorem cstepFn_isClosed {s s1 : St} {c : Nat} {cl cl' : Closer} (h : cstepFn s 
     | (obtain ⟨_, rfl, rfl⟩ := h; simp)
     | (cases role <;> simp at h <;> obtain ⟨rfl, rfl⟩ := h <;> simp)
 
-theorem closeInv_init (gs : List Bool) (nu : Nat) (c0 : Pc) : CloseInv (init gs nu c0) := by
+theorem closeInv_init (gs : List Bool) (nu : Nat) (c0 : Pc) (ls : List LPc) : CloseInv (init gs nu c0 ls) := by
   refine ⟨?_, ?_, ?_, ?_, ?_⟩
   · constructor <;> simp [init, closedFinal]
   · intro c cl hcl
@@ -77,7 +78,7 @@ theorem closeInv_cstep {s s' : St} {c : Nat} (hi : CloseInv s) (h : step s (.cst
         · rw [List.getElem?_set_ne (fun e => hc2 e.symm)] at h2
           have hok2 := hi.each c2 cl2 h2
           by_cases hidle : cl.pc = .idle
-          · exact (cstep_other_idle hi.g.mainSome hi.g.ownerSome hi.g.gracefulClosed hidle hfn hok2).withClosers _
+          · exact (cstep_other_idle hi.g.mainSome hi.g.ownerSome hidle hfn hok2).withClosers _
           · exact (cstep_other_run hidle hok hfn hc2 hok2).withClosers _
       · intro m hm
         simp only at hm ⊢
@@ -110,6 +111,23 @@ theorem closeInv_cstep {s s' : St} {c : Nat} (hi : CloseInv s) (h : step s (.cst
         rw [(cstepFn_closers hfn).2.1] at hu
         exact cstepFn_isClosed hfn (hi.upd u hu)
 
+theorem allExited_getElem {ls : List LPc} (h : allExited ls = true) {l : Nat} {x : LPc} (hx : ls[l]? = some x) :
+    x = .exited := by
+  simp only [allExited, List.all_eq_true] at h
+  have := h x (List.mem_of_getElem? hx)
+  simpa using this
+
+/-- a read-loop action: the flags are untouched, and a caller that has joined the loops stays joined -/
+theorem closeInv_loop {s : St} (hi : CloseInv s) {l : Nat} {x y : LPc} (hx : s.loops[l]? = some x) (hne : x ≠ .exited) :
+    CloseInv { s with loops := s.loops.set l y } := by
+  refine ⟨⟨hi.g.retest, hi.g.noPanic, hi.g.mainSome, hi.g.ownerSome, hi.g.gracefulClosed, hi.g.noMain,
+      hi.g.noOwner, hi.g.iceG, hi.g.sig, hi.g.media, hi.g.stored, hi.g.logClosed, hi.g.notifiedClosed,
+      hi.g.notifiedFinal⟩, ?_, hi.mainAt, hi.ownerAt, hi.upd⟩
+  intro c cl hcl
+  obtain ⟨h1, h2, h3, h4, h5, h6, h7, h8, h9, h10, h11, h12, h13, h14⟩ := hi.each c cl hcl
+  exact ⟨h1, h2, h3, h4, h5, h6, h7, h8, h9, h10, h11, h12, h13,
+    fun ho hp => absurd (allExited_getElem (h14 ho hp) hx) hne⟩
+
 theorem closeInv_step {s s' : St} {a : Action} (hi : CloseInv s) (h : step s a = some s') : CloseInv s' := by
   cases a with
   | cstep c => exact closeInv_cstep hi h
@@ -118,7 +136,7 @@ theorem closeInv_step {s s' : St} {a : Action} (hi : CloseInv s) (h : step s a =
     split at h
     · rename_i hu
       cases h
-      refine ⟨hi.g.withUpdaters _, fun c cl hcl => (hi.each c cl hcl).repack rfl rfl rfl rfl rfl rfl rfl rfl rfl rfl,
+      refine ⟨hi.g.withUpdaters _, fun c cl hcl => (hi.each c cl hcl).repack rfl rfl rfl rfl rfl rfl rfl rfl rfl rfl rfl,
         hi.mainAt, hi.ownerAt, ?_⟩
       intro u2 hu2
       simp only at hu2 ⊢
@@ -136,7 +154,7 @@ theorem closeInv_step {s s' : St} {a : Action} (hi : CloseInv s) (h : step s a =
     · rename_i x hu
       cases h
       have hso := store_ok x hi.g.retest (fun hx => hi.upd u (by rw [hu, hx])) hi.g.notifiedClosed hi.g.notifiedFinal
-      refine ⟨?_, fun c cl hcl => (hi.each c cl hcl).repack rfl rfl rfl rfl rfl rfl rfl rfl rfl rfl,
+      refine ⟨?_, fun c cl hcl => (hi.each c cl hcl).repack rfl rfl rfl rfl rfl rfl rfl rfl rfl rfl rfl,
         hi.mainAt, hi.ownerAt, ?_⟩
       · exact ⟨hi.g.retest, hi.g.noPanic, hi.g.mainSome, hi.g.ownerSome, hi.g.gracefulClosed, hi.g.noMain,
           hi.g.noOwner, hi.g.iceG, hi.g.sig, hi.g.media,
@@ -159,19 +177,37 @@ theorem closeInv_step {s s' : St} {a : Action} (hi : CloseInv s) (h : step s a =
     exact ⟨⟨hi.g.retest, hi.g.noPanic, hi.g.mainSome, hi.g.ownerSome, hi.g.gracefulClosed, hi.g.noMain,
         hi.g.noOwner, hi.g.iceG, hi.g.sig, hi.g.media, hi.g.stored, hi.g.logClosed, hi.g.notifiedClosed,
         hi.g.notifiedFinal⟩,
-      fun c cl hcl => (hi.each c cl hcl).repack rfl rfl rfl rfl rfl rfl rfl rfl rfl rfl, hi.mainAt, hi.ownerAt, hi.upd⟩
+      fun c cl hcl => (hi.each c cl hcl).repack rfl rfl rfl rfl rfl rfl rfl rfl rfl rfl rfl, hi.mainAt, hi.ownerAt, hi.upd⟩
   | env ice dtls =>
     simp only [step, Option.some.injEq] at h
     subst h
     exact ⟨⟨hi.g.retest, hi.g.noPanic, hi.g.mainSome, hi.g.ownerSome, hi.g.gracefulClosed, hi.g.noMain,
         hi.g.noOwner, hi.g.iceG, hi.g.sig, hi.g.media, hi.g.stored, hi.g.logClosed, hi.g.notifiedClosed,
         hi.g.notifiedFinal⟩,
-      fun c cl hcl => (hi.each c cl hcl).repack rfl rfl rfl rfl rfl rfl rfl rfl rfl rfl, hi.mainAt, hi.ownerAt, hi.upd⟩
+      fun c cl hcl => (hi.each c cl hcl).repack rfl rfl rfl rfl rfl rfl rfl rfl rfl rfl rfl, hi.mainAt, hi.ownerAt, hi.upd⟩
+  | lDeliver l =>
+    simp only [step] at h
+    split at h
+    · rename_i hl
+      split at h
+      · cases h
+      · cases h; exact closeInv_loop hi hl (by simp)
+    · cases h
+  | lReturn l =>
+    simp only [step] at h
+    split at h
+    · rename_i hl; cases h; exact closeInv_loop hi hl (by simp)
+    · cases h
+  | lExit l =>
+    simp only [step] at h
+    split at h
+    · rename_i hl; cases h; exact closeInv_loop hi hl (by simp)
+    · cases h
 
 theorem closeInv_of_reachable {gs : List Bool} {nu : Nat} {c0 : Pc} {s : St} (h : Reachable gs nu c0 s) :
     CloseInv s := by
   induction h with
-  | init => exact closeInv_init gs nu c0
+  | init ls => exact closeInv_init gs nu c0 ls
   | step a _ hs ih => exact closeInv_step ih hs
 
 
@@ -196,7 +232,7 @@ theorem cstepFn_rank {s s1 : St} {c : Nat} {cl cl' : Closer} (h : cstepFn s c cl
   cases pc <;> simp [cstepFn] at h <;>
     first
     | (obtain ⟨rfl, rfl⟩ := h; simp [CPc.rank, afterBody]; try (cases g <;> cases role <;> simp))
-    | (obtain ⟨_, rfl, rfl⟩ := h; simp [CPc.rank])
+    | (obtain ⟨_, rfl, rfl⟩ := h; simp [CPc.rank, afterBody]; try (cases g <;> cases role <;> simp))
     | (cases role <;> simp at h <;> obtain ⟨rfl, rfl⟩ := h <;> simp [CPc.rank])
 
 theorem measure_cstep {s s' : St} {c : Nat} (h : step s (.cstep c) = some s') : measure s' < measure s := by
@@ -224,6 +260,9 @@ theorem closers_of_non_cstep {s s' : St} {a : Action} (h : step s a = some s') (
   | uStore u => simp only [step] at h; split at h <;> cases h; rfl
   | api a env => simp only [step, Option.some.injEq] at h; subst h; rfl
   | env ice dtls => simp only [step, Option.some.injEq] at h; subst h; rfl
+  | lDeliver l => simp only [step] at h; split at h <;> (try split at h) <;> cases h; rfl
+  | lReturn l => simp only [step] at h; split at h <;> cases h; rfl
+  | lExit l => simp only [step] at h; split at h <;> cases h; rfl
 
 /-- any sequence of close()-caller steps is at most `measure s` long -/
 theorem run_csteps_bound {s s' : St} {cs : List Nat} (h : runActions s (cs.map .cstep) = some s') :
@@ -250,9 +289,16 @@ theorem enabled_of_cstepFn {s : St} {c : Nat} {cl : Closer} (hcl : s.closers[c]?
   | none => simp [hfn] at h
   | some r => simp
 
+/-- the actions that bring the system closer to "every close() call has returned": a step of a caller, the
+    application's handler returning, a read loop ending -/
+def Action.isProgress : Action → Bool
+  | .cstep _ | .lReturn _ | .lExit _ => true
+  | _ => false
+
 /-- a caller that is neither blocked on a channel nor finished can step -/
 theorem cstepFn_isSome {s : St} {c : Nat} {cl : Closer} (hok : allowed cl.g cl.role cl.pc = true)
-    (h1 : cl.pc ≠ .gWait) (h2 : cl.pc ≠ .cWait) (h3 : cl.pc ≠ .returned) : (cstepFn s c cl).isSome = true := by
+    (h1 : cl.pc ≠ .gWait) (h2 : cl.pc ≠ .cWait) (h3 : cl.pc ≠ .returned)
+    (h4 : allExited s.loops = true ∨ (cl.pc ≠ .bJoin ∧ cl.pc ≠ .tJoin)) : (cstepFn s c cl).isSome = true := by
   obtain ⟨g, role, pc⟩ := cl
   cases pc <;> simp_all [cstepFn] <;> cases role <;> simp_all [allowed]
 
@@ -268,9 +314,43 @@ theorem cstepFn_isSome_cWait {s : St} {c : Nat} {cl : Closer} (hpc : cl.pc = .cW
   simp only at hpc; subst hpc
   simp [cstepFn, h]
 
-/-- a caller blocked on isCloseDone: it or the main caller can step -/
+/-- while a read loop goroutine is alive, it can take a step towards its end -/
+theorem loop_progress {s : St} (h : allExited s.loops = false) :
+    ∃ a, a.isProgress = true ∧ (step s a).isSome = true := by
+  simp only [allExited] at h
+  have : ∃ x ∈ s.loops, x ≠ LPc.exited := by
+    apply Classical.byContradiction
+    intro hne
+    have hall : s.loops.all (· == .exited) = true := by
+      rw [List.all_eq_true]
+      intro x hx
+      apply Classical.byContradiction
+      intro hx2
+      exact hne ⟨x, hx, by simpa using hx2⟩
+    rw [hall] at h; cases h
+  obtain ⟨x, hx, hne⟩ := this
+  obtain ⟨l, hl⟩ := List.getElem?_of_mem hx
+  cases x with
+  | reading => exact ⟨.lExit l, rfl, by simp [step, hl]⟩
+  | handler => exact ⟨.lReturn l, rfl, by simp [step, hl]⟩
+  | exited => exact absurd rfl hne
+
+/-- a caller that is not waiting for another caller: it can step, or it is joining a live read loop that can -/
+theorem progress_self {s : St} {c : Nat} {cl : Closer} (hcl : s.closers[c]? = some cl)
+    (hok : allowed cl.g cl.role cl.pc = true)
+    (h1 : cl.pc ≠ .gWait) (h2 : cl.pc ≠ .cWait) (h3 : cl.pc ≠ .returned) :
+    ∃ a, a.isProgress = true ∧ (step s a).isSome = true := by
+  cases hex : allExited s.loops with
+  | true => exact ⟨.cstep c, rfl, enabled_of_cstepFn hcl (cstepFn_isSome hok h1 h2 h3 (Or.inl hex))⟩
+  | false =>
+    by_cases hj : cl.pc = .bJoin ∨ cl.pc = .tJoin
+    · exact loop_progress hex
+    · exact ⟨.cstep c, rfl, enabled_of_cstepFn hcl (cstepFn_isSome hok h1 h2 h3
+        (Or.inr ⟨fun e => hj (Or.inl e), fun e => hj (Or.inr e)⟩))⟩
+
+/-- a caller blocked on isCloseDone: it, the main caller, or a read loop the main caller joins can step -/
 theorem progress_cWait {s : St} (hi : CloseInv s) {c : Nat} {cl : Closer} (hcl : s.closers[c]? = some cl)
-    (hpc : cl.pc = .cWait) : ∃ c', (step s (.cstep c')).isSome = true := by
+    (hpc : cl.pc = .cWait) : ∃ a, a.isProgress = true ∧ (step s a).isSome = true := by
   have hok := hi.each c cl hcl
   have hclosed := hok.closed (by rw [hpc]; simp)
   have hms := hi.g.mainSome
@@ -281,14 +361,14 @@ theorem progress_cWait {s : St} (hi : CloseInv s) {c : Nat} {cl : Closer} (hcl :
   by_cases hret : clm.pc = .returned
   · have hcd := hokm.mainCloseDone hrm
     rw [hret] at hcd
-    exact ⟨c, enabled_of_cstepFn hcl (cstepFn_isSome_cWait hpc (by simpa [CPc.isReturned] using hcd))⟩
-  · refine ⟨m, enabled_of_cstepFn hclm (cstepFn_isSome hokm.allowed ?_ ?_ hret)⟩
+    exact ⟨.cstep c, rfl, enabled_of_cstepFn hcl (cstepFn_isSome_cWait hpc (by simpa [CPc.isReturned] using hcd))⟩
+  · refine progress_self hclm hokm.allowed ?_ ?_ hret
     · intro e; have := hokm.allowed; rw [hrm, e] at this; simp [allowed] at this
     · intro e; have := hokm.allowed; rw [hrm, e] at this; simp [allowed] at this
 
-/-- no deadlock: while some close() caller has not returned, some close() caller can take a step -/
+/-- no deadlock: while some close() caller has not returned, a progress action is enabled -/
 theorem progress {s : St} (hi : CloseInv s) {c : Nat} {cl : Closer} (hcl : s.closers[c]? = some cl)
-    (hnr : cl.pc ≠ .returned) : ∃ c', (step s (.cstep c')).isSome = true := by
+    (hnr : cl.pc ≠ .returned) : ∃ a, a.isProgress = true ∧ (step s a).isSome = true := by
   have hok := hi.each c cl hcl
   by_cases hg : cl.pc = .gWait
   · -- a waiter: the owner of the graceful flag exists
@@ -304,10 +384,10 @@ theorem progress {s : St} (hi : CloseInv s) {c : Nat} {cl : Closer} (hcl : s.clo
     by_cases hpast : pastDG clo = true
     · have := hoko.ownerGDone hown
       rw [hpast] at this
-      exact ⟨c, enabled_of_cstepFn hcl (cstepFn_isSome_gWait hg this)⟩
+      exact ⟨.cstep c, rfl, enabled_of_cstepFn hcl (cstepFn_isSome_gWait hg this)⟩
     · by_cases hcw : clo.pc = .cWait
       · exact progress_cWait hi hclo hcw
-      · refine ⟨o, enabled_of_cstepFn hclo (cstepFn_isSome hoko.allowed ?_ hcw ?_)⟩
+      · refine progress_self hclo hoko.allowed ?_ hcw ?_
         · intro e
           have ha := hoko.allowed
           obtain ⟨g2, r2, p2⟩ := clo
@@ -320,18 +400,65 @@ theorem progress {s : St} (hi : CloseInv s) {c : Nat} {cl : Closer} (hcl : s.clo
           cases r2 <;> simp [allowed, isOwner, pastDG] at ha hown hpast
   · by_cases hc : cl.pc = .cWait
     · exact progress_cWait hi hcl hc
-    · exact ⟨c, enabled_of_cstepFn hcl (cstepFn_isSome hok.allowed hg hc hnr)⟩
+    · exact progress_self hcl hok.allowed hg hc hnr
 
-/-- from every state satisfying the invariant some schedule of close()-caller steps lets every caller
-    return; it is at most `measure s` steps long -/
+/-! ### termination of the progress actions -/
+
+def totalMeasure (s : St) : Nat := measure s + loopMeasure s
+
+theorem progress_decreases {s s' : St} {a : Action} (ha : a.isProgress = true) (h : step s a = some s') :
+    totalMeasure s' < totalMeasure s := by
+  cases a with
+  | cstep c =>
+    have hm := measure_cstep h
+    have hl : s'.loops = s.loops := by
+      simp only [step] at h
+      cases hcl : s.closers[c]? with
+      | none => simp [hcl] at h
+      | some cl =>
+        cases hfn : cstepFn s c cl with
+        | none => simp [hcl, hfn] at h
+        | some r =>
+          obtain ⟨s1, cl'⟩ := r
+          simp only [hcl, hfn, Option.some.injEq] at h
+          subst h
+          exact (cstepFn_closers hfn).2.2.2.2.2
+    simp only [totalMeasure, loopMeasure, hl]; omega
+  | lReturn l =>
+    simp only [step] at h
+    split at h
+    · rename_i hl
+      cases h
+      have := sum_map_set LPc.rank LPc.reading hl
+      simp only [totalMeasure, loopMeasure, measure, LPc.rank] at this ⊢
+      omega
+    · cases h
+  | lExit l =>
+    simp only [step] at h
+    split at h
+    · rename_i hl
+      cases h
+      have := sum_map_set LPc.rank LPc.exited hl
+      simp only [totalMeasure, loopMeasure, measure, LPc.rank] at this ⊢
+      omega
+    · cases h
+  | uCompute _ _ _ => cases ha
+  | uStore _ => cases ha
+  | api _ _ => cases ha
+  | env _ _ => cases ha
+  | lDeliver _ => cases ha
+
+/-- from every state satisfying the invariant some schedule of progress actions (caller steps, handlers
+    returning, read loops ending) lets every close() caller return; it is at most `totalMeasure s` long -/
 theorem exists_completion {s : St} (hi : CloseInv s) :
-    ∃ cs : List Nat, ∃ s', runActions s (cs.map .cstep) = some s' ∧ cs.length ≤ measure s
+    ∃ as : List Action, ∃ s', runActions s as = some s' ∧ as.length ≤ totalMeasure s
+      ∧ (∀ a ∈ as, a.isProgress = true)
       ∧ ∀ (c : Nat) (cl : Closer), s'.closers[c]? = some cl → cl.pc = .returned := by
-  generalize hn : measure s = n
+  generalize hn : totalMeasure s = n
   induction n using Nat.strongRecOn generalizing s with
   | _ n ih =>
     by_cases hall : ∀ (c : Nat) (cl : Closer), s.closers[c]? = some cl → cl.pc = .returned
-    · exact ⟨[], s, rfl, by simp, hall⟩
+    · exact ⟨[], s, rfl, by simp, by simp, hall⟩
     · have : ∃ (c : Nat) (cl : Closer), s.closers[c]? = some cl ∧ cl.pc ≠ .returned := by
         apply Classical.byContradiction
         intro hne
@@ -341,12 +468,16 @@ theorem exists_completion {s : St} (hi : CloseInv s) :
         intro hr
         exact hne ⟨c, cl, hcl, hr⟩
       obtain ⟨c, cl, hcl, hnr⟩ := this
-      obtain ⟨c', hen⟩ := progress hi hcl hnr
+      obtain ⟨a, hpa, hen⟩ := progress hi hcl hnr
       obtain ⟨s1, hs1⟩ := Option.isSome_iff_exists.mp hen
-      have hlt := measure_cstep hs1
-      obtain ⟨cs, s', hrun, hlen, hret⟩ := ih (measure s1) (by omega) (closeInv_step hi hs1) rfl
-      refine ⟨c' :: cs, s', ?_, ?_, hret⟩
-      · simp only [List.map_cons, runActions, hs1, Option.bind_some]; exact hrun
+      have hlt := progress_decreases hpa hs1
+      obtain ⟨as, s', hrun, hlen, hprog, hret⟩ := ih (totalMeasure s1) (by omega) (closeInv_step hi hs1) rfl
+      refine ⟨a :: as, s', ?_, ?_, ?_, hret⟩
+      · simp only [runActions, hs1, Option.bind_some]; exact hrun
       · simp only [List.length_cons]; omega
+      · intro b hb
+        rcases List.mem_cons.mp hb with rfl | hb
+        · exact hpa
+        · exact hprog b hb
 
 end WebrtcVerif.Close
